@@ -687,6 +687,14 @@ func (s *Sys) input(i int) chan int {
 	return ch
 }
 
+// afterCancelNote: an error value that does not stand for a failing element
+// and that arrives once the context has been cancelled (say, "stopped:
+// deadline exceeded") is not what the properties speak about — they promise
+// one error per failing element, not a silent error channel after a cancel.
+func (s *Sys) afterCancelNote(id, seq int) bool {
+	return id == math.MinInt && s.E.Cancelled.Load() && seq >= s.E.CancelSeq
+}
+
 func (s *Sys) consumeOut(ch <-chan int) {
 	s.Out = driver.Consume(s.E, "consumer.out"+s.sfx, ch, s.P.Consumer(0), func(i int, v int) {
 		s.onValue("out", s.Out, s.M.Out, i, v)
@@ -702,6 +710,9 @@ func (s *Sys) consumeOut2(ch <-chan int) {
 func (s *Sys) consumeErr(ch <-chan error) {
 	s.Err = driver.Consume(s.E, "consumer.err"+s.sfx, ch, s.P.Consumer(2), func(i int, err error) {
 		id := errID(err)
+		if s.afterCancelNote(id, s.E.S.Seq) {
+			return
+		}
 		if s.multiset {
 			s.onMulti("err", s.Err.Got[:i], s.M.Errs, id)
 			return
